@@ -4,6 +4,7 @@ package main
 
 import (
 	"fmt"
+	"os"
 	"go/token"
 	"go/types"
 	"strings"
@@ -309,9 +310,20 @@ const (
 	kJump
 )
 
+var traceFn = os.Getenv("GOSYM_TRACE")
+
 func (fr *Frame) visit(instr ssa.Instruction) continuation {
 	th := fr.th
 	st := th.st
+	if traceFn != "" && strings.Contains(fr.fn.String(), traceFn) {
+		defer func() {
+			if v, ok := instr.(ssa.Value); ok {
+				fmt.Fprintf(os.Stderr, "TRACE %s b%d: %s = %s  => %s\n", fr.fn.Name(), fr.block.Index, v.Name(), instr.String(), describe(fr.env[v]))
+			} else {
+				fmt.Fprintf(os.Stderr, "TRACE %s: %s\n", fr.fn.Name(), instr.String())
+			}
+		}()
+	}
 	switch instr := instr.(type) {
 	case *ssa.DebugRef:
 	case *ssa.UnOp:
@@ -366,7 +378,7 @@ func (fr *Frame) visit(instr ssa.Instruction) continuation {
 		if p == nil {
 			th.runtimePanic("nil pointer dereference", "invalid memory address or nil pointer dereference (store)")
 		}
-		*p = copyVal(fr.get(instr.Val))
+		storeInto(p, fr.get(instr.Val))
 	case *ssa.If:
 		c := fr.get(instr.Cond).(*Term)
 		succ := 1
@@ -518,4 +530,26 @@ func (th *Thread) callValue(fn Value, args []Value, site string) Value {
 
 func constantString(c *ssa.Const) string {
 	return constantStringValue(c)
+}
+
+// storeInto assigns v to *p, copying aggregates element-wise into the existing
+// storage so that pointers to fields/elements taken earlier stay valid.
+func storeInto(p *Value, v Value) {
+	switch nv := v.(type) {
+	case Struct:
+		if old, ok := (*p).(Struct); ok && len(old) == len(nv) {
+			for i := range nv {
+				storeInto(&old[i], nv[i])
+			}
+			return
+		}
+	case Array:
+		if old, ok := (*p).(Array); ok && len(old) == len(nv) {
+			for i := range nv {
+				storeInto(&old[i], nv[i])
+			}
+			return
+		}
+	}
+	*p = copyVal(v)
 }
